@@ -181,6 +181,51 @@ pub fn run(ctx: &Ctx, out: &mut Out) {
                 }
             }
         }
+        // values that differ from the right one only by how its hex digits are grouped into bytes
+        // (equal under any comparison that goes through an unpadded textual rendering)
+        {
+            let hi: Vec<usize> = (0..32).filter(|i| my_srv[*i] >= 0x10).collect();
+            if hi.len() >= 4 {
+                // four bytes 0xXY written as 0x0X 0x0Y: 36 bytes
+                let mut s = Vec::new();
+                for (i, b) in my_srv.iter().enumerate() {
+                    if hi[..4].contains(&i) {
+                        s.push(b >> 4);
+                        s.push(b & 15);
+                    } else {
+                        s.push(*b);
+                    }
+                }
+                cases.push(Case { vers: vec![DRAFT13], srv: Some(s.clone()), srv_mode: "wrong", data: req::ietf_request(&[DRAFT13], Some(&s), &rng.bytes(32), 1024) });
+                out.obs("srv_hex_regrouped_cases", 1);
+            }
+            for i in 0..31 {
+                // (0x0X, 0xYZ) <-> (0xXY, 0x0Z)
+                let (a, b) = (my_srv[i], my_srv[i + 1]);
+                let mut s = my_srv.clone();
+                if a < 0x10 && b >= 0x10 {
+                    s[i] = (a << 4) | (b >> 4);
+                    s[i + 1] = b & 15;
+                } else if a >= 0x10 && b < 0x10 && a & 15 != 0 {
+                    s[i] = a >> 4;
+                    s[i + 1] = ((a & 15) << 4) | b;
+                } else {
+                    continue;
+                }
+                if s != my_srv {
+                    cases.push(Case { vers: vec![DRAFT13], srv: Some(s.clone()), srv_mode: "wrong", data: req::ietf_request(&[DRAFT13], Some(&s), &rng.bytes(32), 1024) });
+                    out.obs("srv_hex_regrouped_cases", 1);
+                }
+            }
+            // the value as text: hex digits, and decimal numbers, as bytes
+            for s in [crate::prng::hex(&my_srv).into_bytes(), my_srv.iter().map(|b| b.to_string()).collect::<String>().into_bytes()] {
+                let mut s = s;
+                while s.len() % 4 != 0 {
+                    s.push(b' ');
+                }
+                cases.push(Case { vers: vec![DRAFT13], srv: Some(s.clone()), srv_mode: "wrong", data: req::ietf_request(&[DRAFT13], Some(&s), &rng.bytes(32), 1024) });
+            }
+        }
         for l in [0usize, 4, 28, 36, 64] {
             let mut s = my_srv.clone();
             s.resize(l, 0xaa);
@@ -294,6 +339,36 @@ pub fn run(ctx: &Ctx, out: &mut Out) {
                 cases.push(Case { vers: vec![], srv: None, srv_mode: "absent", data: sdg });
             }
             judge(out, &cfg, &mut d, cases);
+        }
+    }
+    // a second server with ANOTHER seed in the same process, while the first is still alive: each
+    // answers for its own commitment value only
+    {
+        let seed2 = rng.bytes(32);
+        let mut cfg2 = HConfig::new(&seed2);
+        cfg2.batch_size = cfg.batch_size;
+        if let Ok(mut d2) = Driver::new(cfg2.clone(), 16) {
+            let srv2 = d2.srv_value.clone();
+            let mut cases = Vec::new();
+            for (mode, s) in [("correct", Some(srv2.clone())), ("wrong", Some(my_srv.clone())), ("absent", None), ("wrong", Some(other_srv.clone()))] {
+                for _ in 0..3 {
+                    let data = req::ietf_request(&[DRAFT13], s.as_deref(), &rng.bytes(32), 1024);
+                    out.case(crate::prng::fnv64(&data), true);
+                    out.obs("second_instance_cases", 1);
+                    cases.push(Case { vers: vec![DRAFT13], srv: s.clone(), srv_mode: mode, data });
+                }
+            }
+            judge(out, &cfg2, &mut d2, cases);
+            // and the first one has not changed its mind meanwhile
+            let mut cases = Vec::new();
+            for (mode, s) in [("correct", Some(my_srv.clone())), ("wrong", Some(srv2.clone()))] {
+                let data = req::ietf_request(&[DRAFT13], s.as_deref(), &rng.bytes(32), 1024);
+                out.case(crate::prng::fnv64(&data), true);
+                cases.push(Case { vers: vec![DRAFT13], srv: s.clone(), srv_mode: mode, data });
+            }
+            judge(out, &cfg, &mut d, cases);
+        } else {
+            out.inconclusive("second server start failed");
         }
     }
     if !ctx.time_left() {
